@@ -28,8 +28,10 @@ from . import _an
 from . import C09 as S
 
 PROP = "C11"
-GEN_REGIONS = ["Attrs", "CoreKernels"]
+GEN_REGIONS = ["Attrs", "CoreKernels", "NumpyKernels"]
 THEOREMS = {
+    # the NumPy fallbacks reduce the per-segment products to the same mean and population scatter, for every chunk size
+    "SpecKitV.Props.NumpyKernelsGen": ["gen_np_win_only_auto_eq_ref", "gen_np_win_only_csd_eq_ref", "gen_np_detrend0_auto_eq_ref", "gen_np_detrend0_csd_eq_ref", "gen_np_poly_auto_eq_ref", "gen_np_poly_csd_eq_ref", "np_poly_csd_chunk_invariant", "np_poly_csd_M2_nonneg"],
     "SpecKitV.Props.AttrsB": ["emp_var_formula", "emp_var_nonneg", "emp_var_zero_of_M2_zero", "emp_dev_is_sqrt", "Gxx_emp_dev_formula",
                               "Gxy_emp_dev_formula", "emp_dev_is_scaled_emp", "raw_stats"],
     "SpecKitV.Props.C01": ["reduce_spec", "reduce_M2_all_K", "reduce_M2_nonneg", "reduce_M2_one"],
